@@ -1,13 +1,15 @@
 (* Single entry point of all executable models:
    run_model id params rows  — ids are the property numbers / sub-models. *)
 Require Import Verif.common.Prelude.
-Require Import Verif.model.Vec Verif.model.Arc Verif.model.IntResult Verif.model.CStr.
+Require Import Verif.model.Vec Verif.model.Arc Verif.model.IntResult Verif.model.CStr Verif.model.Callback Verif.model.Slice.
 
 Definition run_model (m : Z) (params : list Z) (rows : list (list Z)) : list (list Z) :=
   match m with
   | 10%Z => run_carc params rows
   | 11%Z => run_cvec params rows
+  | 12%Z => run_slice params rows
   | 13%Z => run_intres params rows
   | 14%Z => run_cstr params rows
+  | 15%Z => run_cb params rows
   | _ => [[-3]%Z]
   end.
